@@ -1,4 +1,5 @@
 """C15 — vertex/triangle function transfer and smoothing are conservative averages."""
+import itertools
 import numpy as np
 
 from .. import repo, core, gen, wire, extract, corr_fem
@@ -24,7 +25,7 @@ class Check(BaseCheck):
 
     def cases(self, seed, n):
         rng = gen.rng_for(seed, "c15")
-        for c in gen.tria_stream(seed + 81, n, "small"):
+        for c in itertools.chain(gen.int_cases(), gen.tria_stream(seed + 81, n, "small")):
             v, t = c["v"], c["t"]
             if len(np.unique(t)) != len(v):
                 continue
